@@ -65,6 +65,7 @@ FRACS = [0.125, 0.25, 0.5, 0.75, 0.875]
 DY_DT = [0.125, 0.25, 0.5, 1.0, 1.0, 2.0, 3.0, 10.0, 0.375]
 DY_OFF = [None, None, 0.0, 0.125, -0.5, 1.0, -3.0, 10.5, 2.0, -0.25]
 DEC_DT = [0.1, 0.3, 1e-3, 2.5e-5, 0.7, 1.0, 0.5]
+DEC_DT_MODERATE = [0.1, 0.3, 0.7, 1.0, 0.5]
 DEC_OFF = [None, 0.05, -0.7, 2.0, 0.0, 0.1, 1.3]
 DY_T0 = [0.0, 0.0, 1.0, -2.0, 0.125, 10.5, -0.5]
 DY_GAP = [0.125, 0.25, 0.5, 1.0, 1.0, 1.5, 2.0, 4.25]
@@ -372,6 +373,50 @@ def _ranges(exp):
     return sorted([list(c) for c in combo] for combo in exp["accept"])[:4]
 
 
+def observed_ranges(arr, got):
+    """per-axis index range of a returned block inside the model array (data are distinct), or None"""
+    if got.ndim != arr.ndim or got.size == 0:
+        return None
+    mask = np.isin(arr, got)
+    if int(mask.sum()) != got.size:
+        return None
+    idx = np.argwhere(mask)
+    lo, hi = idx.min(0), idx.max(0)
+    if tuple(int(x) for x in hi - lo + 1) != got.shape:
+        return None
+    return [(int(a), int(b)) for a, b in zip(lo, hi)]
+
+
+def blame(exp, obs, arr):
+    """index of the axis whose selection is wrong, if it can be told (finding-key class only)"""
+    per = exp.get("per")
+    if not per:
+        return None
+    addressed = [d for d, r in enumerate(per) if not r.get("whole")]
+    if obs[0] == "view" and obs[1]:
+        rng = observed_ranges(arr, obs[2])
+        if rng is None:
+            return None
+        for d, r in enumerate(per):
+            if rng[d] not in r["cands"]:
+                return d
+        for d, r in enumerate(per):
+            if all(c is None or c[1] >= arr.shape[d] for c in r["cands"]):
+                return d
+        return None
+    return addressed[0] if len(addressed) == 1 else None
+
+
+def axis_class(exp, d, axes, rule):
+    if d is None or not exp.get("per"):
+        return "several-axes"
+    r = exp["per"][d]
+    if r.get("whole"):
+        return "unaddressed-axis"
+    e = "zero-extent" if r["zero"] else ("no-extent" if r["point"] else "extent-" + rule)
+    return "%s/%s" % (axes[d]["t"], e)
+
+
 def judge(exp, obs, arr):
     """-> None or (sub-check, detail)"""
     if obs[0] == "view":
@@ -392,16 +437,16 @@ def judge(exp, obs, arr):
     if obs[0] == "raised" or not obs[1]:
         if exp["invalid_ok"]:
             return None
-        return "valid-region-refused", {"expected": want, "observed": shown}
+        return "selection", {"symptom": "valid-region-refused", "expected": want, "observed": shown}
     got = obs[2]
     for combo in exp["accept"]:
         w = take(arr, combo)
         if w.shape == got.shape and np.array_equal(w, got):
             return None
     if not exp["accept"]:
-        return "data-for-empty-or-oob-region", {"expected": want, "observed": shown}
-    return "wrong-samples", {"expected": want, "observed": shown,
-                             "expected_data": take(arr, sorted(exp["accept"])[0]).ravel()[:40].tolist()}
+        return "selection", {"symptom": "data-for-empty-or-oob-region", "expected": want, "observed": shown}
+    return "selection", {"symptom": "wrong-samples", "expected": want, "observed": shown,
+                         "expected_data": take(arr, sorted(exp["accept"])[0]).ravel()[:40].tolist()}
 
 
 # ====================================================================== one case
@@ -445,6 +490,13 @@ def run_case(case, ctx, bench):
 
     exp = exp_for(case["ref"])
 
+    def key_class(exp_, obs_, arr_, spec):
+        if oor:
+            return "posidx-out-of-range"
+        if exp_.get("incompat"):
+            return spec["axes"][exp_["axis"]]["t"]
+        return axis_class(exp_, blame(exp_, obs_, arr_), spec["axes"], rule)
+
     from nixio.dimensions import SliceMode
     smode = SliceMode.Exclusive if rule == "excl" else SliceMode.Inclusive
     blk = bench.block()
@@ -459,7 +511,7 @@ def run_case(case, ctx, bench):
         obs = observe(tag.tagged_data, 0, smode)
     bad = judge(exp, obs, refdata)
     if bad:
-        ctx.violation("C08/%s/%s/%s/%s" % (site, bad[0], ucls, "posidx-out-of-range" if oor else ecls),
+        ctx.violation("C08/%s/%s/%s" % (site, bad[0], key_class(exp, obs, refdata, case["ref"])),
                       case, dict(bad[1], call=site))
 
     # ---- classes
@@ -515,7 +567,7 @@ def run_case(case, ctx, bench):
         if link == "tagged":
             fexp = exp_for(fspec)
             fbad = judge(fexp, fobs, featdata)
-            fcls = "%s/%s" % (unit_class(case, fexp), "posidx-out-of-range" if oor else ecls)
+            fcls = key_class(fexp, fobs, featdata, fspec)
             if not fexp.get("incompat"):
                 classes.append("feature-outcome:" + ("data" if fexp["accept"] else "invalid"))
         elif link == "untagged":
@@ -690,9 +742,10 @@ def coord_at(g, u):
 
 
 @st.composite
-def geometry(draw, kind, n, dyadic):
+def geometry(draw, kind, n, dyadic, moderate=False):
     if kind == "sampled":
-        return {"t": "sampled", "dt": draw(st.sampled_from(DY_DT if dyadic else DEC_DT)),
+        dts = DY_DT if dyadic else (DEC_DT_MODERATE if moderate else DEC_DT)
+        return {"t": "sampled", "dt": draw(st.sampled_from(dts)),
                 "off": draw(st.sampled_from(DY_OFF if dyadic else DEC_OFF))}
     if kind == "range":
         nt = max(1, n + draw(st.sampled_from([0, 0, 0, 0, 0, 1, 2, -1, -2])))
@@ -709,7 +762,11 @@ def geometry(draw, kind, n, dyadic):
 @st.composite
 def placement(draw, g, n, with_ext):
     """-> (position, extent or None) in geometry space"""
-    cls = draw(st.sampled_from(["on"] * 6 + ["between"] * 4 + ["before", "after", "unstored"]))
+    if with_ext:
+        cls = draw(st.sampled_from(["on"] * 9 + ["between"] * 7 + ["before", "after", "unstored"]))
+    else:
+        # without an extent only an on-sample position selects anything
+        cls = draw(st.sampled_from(["on"] * 15 + ["between"] * 2 + ["before", "after", "unstored"]))
     if cls == "on":
         u = float(draw(st.integers(0, n - 1)))
     elif cls == "between":
@@ -755,10 +812,10 @@ def recipes(draw):
     kind = draw(st.sampled_from(["tag", "mtag"]))
     rank = draw(st.sampled_from([1, 1, 2, 2, 2, 3]))
     shape = [draw(st.sampled_from([1, 2, 3, 3, 4, 4, 5, 6])) for _ in range(rank)]
-    strict = draw(st.integers(0, 9)) < 7
-    has_units = draw(st.integers(0, 9)) < 6
+    strict = draw(st.sampled_from([True] * 11 + [False] * 9))
+    has_units = draw(st.sampled_from([True] * 6 + [False] * 4))
     k = rank if draw(st.booleans()) else draw(st.integers(1, rank))
-    with_ext = draw(st.integers(0, 9)) < 7
+    with_ext = draw(st.sampled_from([True] * 7 + [False] * 3))
     rule = draw(st.sampled_from(["excl", "incl"]))
     n = 1 if kind == "tag" else draw(st.integers(1, 4))
     kinds = [draw(st.sampled_from(["sampled", "sampled", "sampled", "range", "range", "range", "set", "set"]))
@@ -769,7 +826,7 @@ def recipes(draw):
     if link:
         if link == "tagged":
             frank = draw(st.integers(k, 3))
-            fshape = [shape[d] if d < rank and draw(st.integers(0, 9)) < 6
+            fshape = [shape[d] if d < rank and draw(st.integers(0, 7)) < 6
                       else draw(st.integers(1, 6)) for d in range(frank)]
         else:
             frank = draw(st.integers(1, 3))
@@ -787,7 +844,7 @@ def recipes(draw):
     cols = []           # per addressed axis: list of n (position, extent)
     for d in range(rank):
         akind = kinds[d]
-        dyadic = strict or draw(st.integers(0, 2)) == 0
+        dyadic = strict or draw(st.sampled_from([True] + [False] * 5))
         g = draw(geometry(akind, shape[d], dyadic))
         A = B = Fr(1)
         unit = None
@@ -798,7 +855,7 @@ def recipes(draw):
                 if strict:
                     mode = draw(st.sampled_from(["same", "same", "up", "up", "up"]))
                 else:
-                    mode = draw(st.sampled_from(["same", "up", "up", "down", "down", "down"]))
+                    mode = draw(st.sampled_from(["same", "up", "up", "down", "down", "down", "down"]))
                 if mode == "same":
                     pt = pa = draw(st.sampled_from(COMMON + PREFIXES))
                 elif mode == "up":
@@ -838,17 +895,15 @@ def recipes(draw):
         # the feature array's axis
         if link and d < frank:
             if link == "tagged" and d < k:
-                same_geo = draw(st.integers(0, 9)) < 6
+                same_geo = draw(st.integers(0, 7)) < 6
                 if has_units:
                     fkind = akind if akind == "set" else (akind if same_geo else
                                                           draw(st.sampled_from(["sampled", "range"])))
                 else:
                     fkind = akind if same_geo else draw(st.sampled_from(["sampled", "range", "set"]))
-                fg = g if (same_geo and fkind == akind) else draw(geometry(fkind, fshape[d], dyadic))
-                if fkind == "range" and fg is g and len(g["ticks"]) < fshape[d] and draw(st.booleans()):
-                    fg = draw(geometry(fkind, fshape[d], dyadic))
+                fg = g if (same_geo and fkind == akind) else draw(geometry(fkind, fshape[d], dyadic, True))
                 funit = None
-                mult = B
+                mult = Fr(1)
                 if fkind != "set":
                     if has_units:
                         if strict:
@@ -862,13 +917,6 @@ def recipes(draw):
                         mult = A * Fr(10) ** (PREFIX_EXP[pt] - PREFIX_EXP[pf])
                     elif draw(st.booleans()):
                         funit = "ms"
-                        mult = Fr(1)
-                    else:
-                        mult = Fr(1)
-                else:
-                    mult = Fr(1)
-                if has_units is False:
-                    mult = Fr(1)
             else:
                 fkind = draw(st.sampled_from(["sampled", "range", "set"]))
                 fg = draw(geometry(fkind, fshape[d], True))
@@ -898,9 +946,10 @@ def recipes(draw):
     case = {"kind": kind, "ref": {"shape": shape, "axes": axes}, "pos": pos, "ext": ext,
             "units": tag_units if has_units else None, "rule": rule, "feat": fspec}
     if kind == "mtag":
-        case["posidx"] = n if draw(st.integers(0, 9)) == 0 else draw(st.integers(0, n - 1))
+        oor = draw(st.sampled_from([False] * 5 + [True]))
+        case["posidx"] = n if oor else draw(st.integers(0, n - 1))
         if k == 1:
-            case["pos1d"] = draw(st.integers(0, 9)) < (7 if rank == 1 else 3)
+            case["pos1d"] = draw(st.sampled_from([True] * 7 + [False] * 3 if rank == 1 else [True] * 3 + [False] * 7))
         else:
             case["pos1d"] = False
     return case
